@@ -89,7 +89,7 @@ fn check(ctx: &mut Ctx, h: &History) -> Result<(), String> {
 }
 
 pub fn run(ctx: &mut Ctx) {
-    ctx.rule = "histories of 2-40 assertions through Client and at the CTAP2 level (there also with up=false / uv=false and a user-validation step that reports exactly what was asked), plus occasional registrations, interleaved over 1-4 pre-loaded credentials on up to 3 RPs, with start counters from {none, 0, 1, 2^31-1, 2^31, 2^32-3, 2^32-2, 2^32-1, random}, targeted by an allow list of one to three held credentials or discovered, on the reference store (capability full / forced discoverable / non-discoverable only), MemoryStore and the Option store, counters for new credentials on/off. Non-trivial = at least two successful assertions on counted credentials, or at least one with a start value within 2 of the maximum; distinct by history.".into();
+    ctx.rule = "histories of 2-40 assertions through Client and at the CTAP2 level (there also with up=false / uv=false and a user-validation step that reports exactly what was asked), plus occasional registrations, interleaved over 1-4 pre-loaded credentials on up to 3 RPs, with start counters from {none, 0, 1, 2^31-1, 2^31, 2^32-3, 2^32-2, 2^32-1, random}, targeted by an allow list of one to three held credentials or discovered, on the reference store (capability full / forced discoverable / non-discoverable only), MemoryStore and the Option store, counters for new credentials on/off; plus histories on a shared in-memory map from which another party removes the selected credential while the user is asked. Non-trivial = at least two successful assertions on counted credentials, or at least one with a start value within 2 of the maximum; distinct by history.".into();
     ctx.assumptions = vec![
         "per-credential model: below the maximum each success reports previous+1 and that value is what the store then holds; at the maximum the reported and stored value is not smaller and there is no panic".into(),
         "credentials without counter: report 0, record unchanged, no update call (reference store log)".into(),
@@ -99,13 +99,35 @@ pub fn run(ctx: &mut Ctx) {
         Search::Pass => {}
         Search::Fail(h, msg) => ctx.violation("histories", json!(h), &msg),
     }
+    // a shared in-memory map from which another party removes the selected credential while the user is asked: an assertion
+    // that is answered reports the value the store holds afterwards (histories of the C07 'shipped' engine, counters on)
+    let removal = (proptest::collection::vec((any::<u8>(), any::<bool>(), any::<bool>()), 1..5), any::<bool>()).prop_map(|(v, rk)| {
+        use crate::props::c07::{SOp, Shipped};
+        let mut ops = vec![SOp::Create { exclude_hit: false, alg_supported: true, deny: false, rk }, SOp::Create { exclude_hit: false, alg_supported: true, deny: false, rk: !rk }];
+        for (target, removed, again) in v {
+            ops.push(SOp::Assert { target, prf: false, deny: false, removed_during_prompt: removed });
+            if again {
+                ops.push(SOp::Create { exclude_hit: false, alg_supported: true, deny: false, rk });
+            }
+        }
+        Shipped { store: 2, counter_cfg: true, hmac: crate::cer::HmacCfg::None, ops }
+    });
+    let n = ctx.tier.pick(400u32, 100_000u32);
+    match search(ctx, 18, n, removal, crate::props::c07::check_shipped) {
+        Search::Pass => {}
+        Search::Fail(c, msg) => ctx.violation("removed-during-prompt", json!(c), &msg),
+    }
     if ctx.violations.is_empty() && ctx.class_count("assertions/on-counted-credential") == 0 {
         eprintln!("C08: vacuous run");
         std::process::exit(2);
     }
 }
 
-pub fn replay(ctx: &mut Ctx, _stage: &str, case: &Value) -> Result<(), String> {
+pub fn replay(ctx: &mut Ctx, stage: &str, case: &Value) -> Result<(), String> {
+    if stage == "removed-during-prompt" {
+        let c: crate::props::c07::Shipped = serde_json::from_value(case.clone()).map_err(|e| format!("bad case: {e}"))?;
+        return crate::props::c07::check_shipped(ctx, &c);
+    }
     let h: History = serde_json::from_value(case.clone()).map_err(|e| format!("bad case: {e}"))?;
     check(ctx, &h)
 }
